@@ -21,7 +21,7 @@ from ..ref import jsonref
 LEVEL = "exploration"
 
 I_MAX, I_MIN = 2 ** 63 - 1, -(2 ** 63)
-S_FULL = [None, True, False, 0, 1, -1, I_MAX, I_MIN, 0.5, -0.0, 1e300, 5e-324, 1.0, "", "a", "\u00e9", "\U0001F600", "\u0000", "a.b", "1"]
+S_FULL = [None, True, False, 0, 1, -1, I_MAX, I_MIN, 0.5, -0.0, 0.0, 1e300, 5e-324, 1.0, "", "a", "\u00e9", "\U0001F600", "\u0000", "a.b", "1"]
 K_FULL = ["", "a", "\u00e9", "a.b", "0"]
 # json.dump() reaches the encoder through iterencode(), json.dumps() through encode(); both are
 # "serialising with the library's JSON encoder".  Drop "dump" here to restrict the oracle to DESIGN's json.dumps.
@@ -640,6 +640,58 @@ def validate_model():
                 raise runner.HarnessError(f"jsonref.instant disagrees with datetime for {(y, mo, d, h, mi, sec, off)}")
 
 
+# ---- pair histories of conversions: json_to_cel(d) alone and after json_to_cel of every other document -----------
+# (documents that a table keyed by ``==`` / ``hash`` confuses: 1, 1.0, true; 0, 0.0, -0.0, false; equal texts)
+PH_DOCS = [0.0, -0.0, 0, False, 1, 1.0, True, -1, -1.0, "1", "", None, [1], [1.0], [True], [0.0], [-0.0], {"a": 1}, {"a": 1.0}, {"a": True}, {"a": -0.0}, {"a": 0}, 2 ** 53, float(2 ** 53),
+           I_MAX, float(2 ** 63), [0.0, -0.0], [-0.0, 0.0], [1, True, 1.0], [True, 1.0, 1]]
+
+
+def ph_terms():
+    return list(range(len(PH_DOCS)))
+
+
+def ph_step(term):
+    import celpy.adapter as adapter
+    doc = PH_DOCS[term]
+    try:
+        v = adapter.json_to_cel(doc)
+    except Exception as ex:  # noqa
+        return ("X", type(ex).__name__)
+    try:
+        back = json.dumps(v, cls=adapter.CELJSONEncoder)
+    except Exception as ex:  # noqa
+        back = "raises-" + type(ex).__name__
+    return ("V", repr(jsonref.class_tree(v)) if hasattr(jsonref, "class_tree") else _ph_tree(v), back)
+
+
+def _ph_tree(v):
+    if isinstance(v, dict):
+        return (type(v).__name__, tuple((_ph_tree(k), _ph_tree(x)) for k, x in v.items()))
+    if isinstance(v, (list, tuple)):
+        return (type(v).__name__, tuple(_ph_tree(x) for x in v))
+    return (type(v).__name__, repr(float(v)) if isinstance(v, float) else repr(v))
+
+
+def ph_expected(term):
+    doc = PH_DOCS[term]
+
+    def tree(d):
+        if d is None:
+            return ("NoneType", "None")
+        if isinstance(d, bool):
+            return ("BoolType", f"BoolType(source={d})")
+        return None
+    return None
+
+
+def ph_label(term):
+    return json.dumps(PH_DOCS[term])
+
+
+def ph_outcome_label(o):
+    return o[0]
+
+
 # ---- driver ---------------------------------------------------------------------------------------
 def run(ctx):
     validate_model()
@@ -693,6 +745,10 @@ def run(ctx):
     expected_cases += n_ts * 4 + n_du * 7 + n_by * 3
     spaces["histories:encoder-decoder-reuse"]["cardinality"] = hist_count()
     expected_cases += hist_count()
+    from .. import pairhist
+    expected_cases += pairhist.run(ctx, __name__)
+    ctx.rule += (" Pair histories: json_to_cel + encode of each of %d documents that a table keyed by == / hash would confuse (0, 0.0, -0.0, false; 1, 1.0, true; ...) alone and after every "
+                 "other one in the same process, started from the pristine process state: class tree, value reprs (sign of zero) and encoded text must be what the document gives alone." % len(PH_DOCS))
     ctx.coverage_extra["expected_cases"] = expected_cases
     ctx.coverage_extra["documents"] = sum(s.cardinality()[0] for s in strata)
     bad = {k: v for k, v in spaces.items() if v["cardinality"] != v["enumerated"]}
@@ -702,6 +758,9 @@ def run(ctx):
 
 def replay(w):
     wit = w["witness"]
+    if wit.get("space") == "pairhist":
+        from .. import pairhist
+        return pairhist.replay(w)
     import celpy.adapter as adapter
     import celpy.celtypes as ct
 
